@@ -4,7 +4,7 @@ CONSTANT Emit = FALSE
 CONSTANT StateNames = {"z0", "y1", "mix1"}
 CONSTANT GateNames = {"h", "x90", "ad"}
 CONSTANT MProcNames = {"mz", "m3", "m4"}
-CONSTANT PovmNames = {"y", "p3", "p4"}
+CONSTANT PovmNames = {"y", "p3", "p4", "p5"}
 CONSTANT GenModes = {0, 1, 2}
 INVARIANT Associative
 INVARIANT Normalised
